@@ -2112,6 +2112,10 @@ pub fn try_parse<I>(pattern: I, flags: api::Flags) -> Result<ir::Regex, Error>
 where
     I: Iterator<Item = u32> + Clone,
 {
+    // The `v` flag implies everything the `u` flag does (strict grammar, code point
+    // semantics, simple case folding); it additionally enables the class set grammar.
+    let mut flags = flags;
+    flags.unicode |= flags.unicode_sets;
     let mut p = Parser {
         input: pattern.peekable(),
         flags,
